@@ -65,6 +65,7 @@ def generate(st):
         'allow_unvalued_expired': sw.random() < 0.1,
         'use_expiry': sw.random() < 0.85,
         'dict_output': sw.random() < 0.25,
+        'output_is_input': sw.choice([True, True, True, False]),
     }
     pool = KEYPOOL_I if cfg['keys_int'] else KEYPOOL_S
 
@@ -81,7 +82,7 @@ def generate(st):
 
     def make_input(nm):
         if g.random() < cfg['p_scalar']:
-            return {'kind': 'scalar', 'v': g.choice([1, 2, 3, 10])}
+            return {'kind': 'scalar', 'v': g.choice([1, 2, 3, 10, 10, [7, 8], [5], [1, 2, 3]])}
         ks = keyset()
         # values are distinct within a table, so no two rows of one call present f with the same arguments
         # and the ledger attributes every evaluation to one row
@@ -156,7 +157,11 @@ def generate(st):
                 data = f.choice(['omit', 'none'])
             elif r < 0.45 and prev_keys:
                 loss = [k for k in prev_keys if f.random() < 0.4]
-        ops.append({'op': 'call', 'inputs': inputs, 'expiry': expiry, 'data': data, 'loss': loss, 'also_join': g.random() < 0.3})
+        todays = dict(inputs)
+        for q in params:
+            if 'default' in q and q['name'] in todays and len(todays) > 1 and g.random() < 0.15:
+                del todays[q['name']]          # the caller relies on the parameter's own default today
+        ops.append({'op': 'call', 'inputs': todays, 'expiry': expiry, 'data': data, 'loss': loss, 'also_join': g.random() < 0.3})
         # the generator cannot know the join result without the model; approximate prev_keys by all table keys
         prev_keys = cand
     return {'prop': PROP, 'cfg': cfg, 'ops': ops}
@@ -274,6 +279,8 @@ def execute(trace, ctx=None):
         kwargs['if_none'] = True
     if cfg.get('include_inputs'):
         kwargs['include_inputs'] = True
+    if cfg.get('output_is_input', True) is False:
+        kwargs['output_is_input'] = False       # f is not shown its own previous output (ours never asks for it)
     p = perdictable(f, **kwargs)
     # join defaults as the library documents them: explicit `defaults`, else f's own parameter defaults
     if cfg.get('defaults') is not None:
@@ -607,6 +614,8 @@ def shrink_candidates(trace):
                 if inp['col'] != nm:
                     t = copy.deepcopy(trace); t['ops'][k]['inputs'][nm]['col'] = nm; yield t
     cfg = trace['cfg']
+    if cfg.get('output_is_input', True) is False:
+        t = copy.deepcopy(trace); t['cfg']['output_is_input'] = True; yield t
     for key in ('if_none', 'include_inputs', 'dict_output'):
         if cfg.get(key):
             t = copy.deepcopy(trace); t['cfg'][key] = False; yield t
